@@ -62,6 +62,8 @@ class TypeEnv:
                 return ("map", self._p(args[0]), self._p(args[1]), "default")
             if head in ("dict", "Dict", "Map", "map", "Mapping"):
                 return ("map", self._p(args[0]), self._p(args[1]))
+            if head == "omap":     # sidecar only: a dict whose insertion order matters (keys kept as a sequence as well)
+                return ("map", self._p(args[0]), self._p(args[1]), "ordered")
             if head in ("tuple", "Tuple"):
                 return ("tuple", tuple(self._p(a) for a in args))
             if head == "arr":
@@ -250,7 +252,10 @@ def mk_sym(st, tenv: TypeEnv, t, name: str, depth=0) -> V:
         st.heap[(ref, "val")] = val
         st.input_terms[name + ".val"] = val
         m = VMap(ref, kt, vt)
-        m.default = len(t) > 3
+        m.default = len(t) > 3 and t[3] == "default"
+        m.ordered = len(t) > 3 and t[3] == "ordered"
+        if m.ordered:
+            fresh_order(st, ref, kt, name)
         return m
     if k == "arr":
         from .values import VArr
@@ -279,6 +284,24 @@ def mk_sym(st, tenv: TypeEnv, t, name: str, depth=0) -> V:
         st.heap[(ref, "items")] = {}
         return VDict(ref)
     raise Unsupported(f"cannot create symbolic value of type {t}")
+
+
+def fresh_order(st, ref, kt, name):
+    """insertion order of a dict: (ref,'keys') is a sequence of distinct keys enumerating exactly the domain;
+    (ref,'pos') gives the position of each key (a Skolem function for 'every key of the domain occurs')"""
+    ks = sort_of_type(kt)
+    keys = z3.Const(st.fresh_name(name + ".keys"), z3.SeqSort(ks))
+    pos = z3.Function(st.fresh_name(name + ".pos"), ks, z3.IntSort())
+    dom = st.heap[(ref, "dom")]
+    i, j = z3.Ints(st.fresh_name("i") + " " + st.fresh_name("j"))
+    k = z3.Const(st.fresh_name("k"), ks)
+    st.assume(z3.ForAll([i], z3.Implies(z3.And(i >= 0, i < z3.Length(keys)), z3.And(z3.Select(dom, keys[i]), pos(keys[i]) == i)),
+                        patterns=[keys[i]]))
+    st.assume(z3.ForAll([k], z3.Implies(z3.Select(dom, k), z3.And(pos(k) >= 0, pos(k) < z3.Length(keys), keys[pos(k)] == k)),
+                        patterns=[z3.Select(dom, k)]))
+    st.heap[(ref, "keys")] = keys
+    st.heap[(ref, "pos")] = pos
+    st.input_terms[name + ".keys"] = keys
 
 
 def elem_type(t):
